@@ -909,3 +909,12 @@ V("c04-benign-ec-export-size-negated-floor", "C04", "benign", "R04.15", "the coo
 V("c01-alias-table-in-gate", "C01", "break", "R01.12", "JWS get_alg resolves Ed25519 / Ed448 to the EdDSA model through an alias table",
   "rfc7515/registry.py", "        if not isinstance(name, str) or name not in self.algorithms:\n            raise UnsupportedAlgorithmError(f'Algorithm of \"{name}\" is not supported')\n\n        if self.allowed:",
   "        name = {\"Ed25519\": \"EdDSA\", \"Ed448\": \"EdDSA\"}.get(name, name) if isinstance(name, str) else name\n        if not isinstance(name, str) or name not in self.algorithms:\n            raise UnsupportedAlgorithmError(f'Algorithm of \"{name}\" is not supported')\n\n        if self.allowed:")
+# ------------------------------------------------------------------------------------------------ from the full run of the second mutation family
+V("c11-as-der-drops-encoding", "C11", "break", "R11.10", "as_der no longer asks for the DER encoding",
+  "rfc7517/models.py", "        return self.as_bytes(encoding=\"DER\", private=private, password=password)", "        return self.as_bytes(private=private, password=password)")
+V("c19-recover-prime-factors-arg-order", "C19", "break", "R19.8", "rsa_recover_prime_factors is given (n, e, d)",
+  "rfc7518/rsa_key.py", "rsa_recover_prime_factors(public_numbers.n, d, public_numbers.e)", "rsa_recover_prime_factors(public_numbers.n, public_numbers.e, d)")
+V("c05-default-registry-under-other-test", "C05", "break", "R05.10", "encrypt_json falls back to the default registry when no sender key is given, whatever registry the caller passed",
+  "jwe.py", "    elif registry is None:\n        registry = default_registry\n\n    for recipient in obj.recipients:", "    elif sender_key is None:\n        registry = default_registry\n\n    for recipient in obj.recipients:")
+V("c19-to-bytes-encode-args-swapped", "C19", "break", "R19.5", "to_bytes passes (errors, charset) to str.encode",
+  "util.py", "        return x.encode(charset, errors)", "        return x.encode(errors, charset)")
